@@ -1345,6 +1345,11 @@ func init() {
 				o.emit("!C08.reconnect role="+x.role, x.impl, x.pred)
 			}
 		}
+		// … and accepted again WITHOUT a pause, eight times over
+		for _, role := range []string{"server", "client"} {
+			impl, pred := boundedCell(90*time.Second, func() (string, string) { return runMuxReacceptAtOnce(role, 8) })
+			o.emit("!C08.reaccept-at-once role="+role+" rounds=8", impl, pred)
+		}
 		// the same id accepted again after its first brokered server was shut down
 		for _, role := range []string{"server", "client"} {
 			impl, pred := boundedCell(60*time.Second, func() (string, string) { return runMuxReaccept(role) })
